@@ -367,7 +367,12 @@ def r5_regex_shape(ctx):
     f = ctx.func('xdoctest.checker.extract_exc_want')
     uses = [n for n in ast.walk(f.node) if isinstance(n, ast.Call) and isinstance(n.func, ast.Attribute) and is_name(n.func.value, '_EXCEPTION_RE')]
     grp = [n for n in ast.walk(f.node) if isinstance(n, ast.Call) and isinstance(n.func, ast.Attribute) and n.func.attr == 'group' and n.args and isinstance(n.args[0], ast.Constant)]
-    ok = len(uses) >= 1 and all(u.func.attr in ('search', 'match') for u in uses) and any(x.args[0].value == 'msg' for x in grp) and all(x.args[0].value == 'msg' for x in grp)
+    # a bound method of the regex kept in a module-level name (`_search = _EXCEPTION_RE.search`) is the same search
+    bound = {st.targets[0].id: st.value.attr for st in f.module.tree.body if isinstance(st, ast.Assign) and len(st.targets) == 1 and isinstance(st.targets[0], ast.Name) and
+             isinstance(st.value, ast.Attribute) and is_name(st.value.value, '_EXCEPTION_RE')}
+    via = [bound[n.func.id] for n in ast.walk(f.node) if isinstance(n, ast.Call) and isinstance(n.func, ast.Name) and n.func.id in bound]
+    ok = len(uses) + len(via) >= 1 and all(u.func.attr in ('search', 'match') for u in uses) and all(a in ('search', 'match') for a in via) and \
+        any(x.args[0].value == 'msg' for x in grp) and all(x.args[0].value == 'msg' for x in grp)
     rep.ob('C03.R5', ctx.loc(f, f.node), 'extract_exc_want uses _EXCEPTION_RE and group msg', ok,
            'the wanted message is the msg group of the traceback regex' if ok else 'extract_exc_want no longer takes the msg group of _EXCEPTION_RE', anchor=f.qualname)
 
